@@ -19,6 +19,9 @@ structure St where
   base : Option Core
   cur : Option Core
   classes : List (Bytes × ValClass)
+  mcur : Option (Core × List Nat × List (Nat × Nat)) := none    -- module-call world: chain B, receipts, acknowledgements
+  skip : Bool := false      -- after a `slash` (exchange rate ≠ 1): outputs are not compared until the next `reset`
+  mask : Bool := false      -- after `allocate` (rewards outstanding): balances and supply are not compared
 
 def fresh : St := { base := none, cur := none, classes := [] }
 
@@ -93,6 +96,8 @@ def pSysCall : P (SysCall × List (Bytes × ValClass)) := fun ts => do
 def pKind : P CallKind
   | "c" :: r => some (.call, r)
   | "d" :: r => some (.dcall, r)
+  | "s" :: r => some (.scall, r)
+  | "v" :: r => some (.vcall, r)
   | _ => none
 
 /-- call-shape tree (prefix notation), fuel = number of tokens. -/
@@ -108,6 +113,13 @@ def pNode : Nat → P (Node D × List (Bytes × ValClass))
       let (cnt, ts) ← pNat ts
       let (body, ts) ← pRep (pNode fuel) cnt ts
       pure ((.proxy k ig tg (body.map (·.1)), (body.map (·.2)).flatten), ts)
+    | "K" => do        -- CREATE2 of a fresh helper contract + CALL: a CALL frame at the new address
+      let (ig, ts) ← pBool ts
+      let (tg, ts) ← pHex ts
+      let (_, ts) ← pHex ts
+      let (cnt, ts) ← pNat ts
+      let (body, ts) ← pRep (pNode fuel) cnt ts
+      pure ((.proxy .call ig tg (body.map (·.1)), (body.map (·.2)).flatten), ts)
     | "S" => do
       let (k, ts) ← pKind ts
       let (ig, ts) ← pBool ts
@@ -224,10 +236,13 @@ def parseInit (fs : List String) : Option Core := do
     | [i, b] => do pure (← i.toNat?, b != "0")
     | _ => none)
   let deposits ← kv fs "deposits"
+  let vb := match kv fs "valbonded" with
+    | some v => (csv v).map (· != "0")
+    | none => []
   match pools with
   | [bp, nbp, fc] =>
     pure { st := { evm := [], native := { bank := { bal := bal, supply := supply, modules := modules }, bond := str bond,
-                                           bondedPool := bp, notBondedPool := nbp, valTokens := vt, dels := [], ubds := [],
+                                           bondedPool := bp, notBondedPool := nbp, valTokens := vt, valBonded := vb, dels := [], ubds := [],
                                            reds := [], props := props, votes := [] } },
            actors := actors, proxies := proxies, fee := fc, deposits := deposits }
   | _ => none
@@ -238,7 +253,7 @@ def pCoin : P (Denom × Int) := fun ts => do
   let a ← a.toInt?
   pure ((str d, a), ts)
 
-def step (st : St) (line : String) : St × String :=
+def stepCore (st : St) (line : String) : St × String :=
   match fields line with
   | ["topics"] =>
     (st, joinWith " " ([EvKind.delegated, .undelegated, .redelegated, .withdrew, .voted, .votedWeighted].map (fun k => hex (topicOf k))))
@@ -246,7 +261,36 @@ def step (st : St) (line : String) : St × String :=
     match parseInit fs with
     | some c => ({ st with base := some c, cur := some c }, "ok " ++ dump c)
     | none => (st, "bad-op")
-  | ["reset"] => ({ st with cur := st.base }, "ok")
+  | "minit" :: fs =>
+    match parseInit fs with
+    | some c => ({ st with mcur := some (c, [], []) }, s!"ok M:{counter voucherKey c.st.evm} " ++ dump c)
+    | none => (st, "bad-op")
+  | "recv" :: seq :: amt :: _bound :: rv :: rest =>
+    match st.mcur, seq.toNat? with
+    | some (c, receipts, acks), some seq =>
+      let transfer : Option (Option Nat) := if amt = "-" then some none else amt.toNat?.map some
+      let call : Option (Option (Node D) × List (Bytes × ValClass)) :=
+        match rest with
+        | ["none"] => some (none, [])
+        | _ => match pNode (rest.length + 1) rest with
+          | some ((nd, cl), []) => some (some nd, cl)
+          | _ => none
+      match transfer, call with
+      | some transfer, some (call, cl) =>
+        let classes := cl ++ st.classes
+        let rc : RecvCall D := { transfer := transfer, transferOk := true, reverts := rv != "0", call := call }
+        let ch : Chain Native := { st := c.st, receipts := receipts, acks := acks }
+        let r := deliverRecv (mkEnv classes) c.st ch seq rc
+        let ch' := r.1.1
+        let c' := { c with st := ch'.st }
+        let ack := match r.1.2, ch'.acks with
+          | .ok, (_, code) :: _ => toString code
+          | _, _ => "-"
+        ({ st with mcur := some (c', ch'.receipts, ch'.acks), classes := classes },
+         s!"{statusStr r.1.2} A:{ack} M:{counter voucherKey c'.st.evm} " ++ dump c')
+      | _, _ => (st, "bad-op")
+    | _, _ => (st, "bad-op")
+  | ["reset"] => ({ st with cur := st.base, skip := false, mask := false }, "ok")
   | "tx" :: from_ :: rest =>
     match st.cur, unhex from_, pNode (rest.length + 1) rest with
     | some c, some sender, some ((node, cl), []) =>
@@ -291,9 +335,33 @@ def step (st : St) (line : String) : St × String :=
         | .panic _ => (st, "panic X:" ++ x n.bank ++ " " ++ dump c)
       | _ => (st, "bad-op")
     | _, _, _ => (st, "bad-op")
-  | ["slash", _, _] => (st, "ok")      -- oracle-only operations (last of a history)
+  | ["fund", a, v] =>
+    match st.cur, unhex a, v.toNat? with
+    | some c, some a, some v =>
+      let n := c.st.native
+      let bk := { n.bank with bal := setBal n.bank.bal a n.bond (balOf n.bank.bal a n.bond + v),
+                              supply := aset n.bank.supply n.bond ((alookup n.bank.supply n.bond).getD 0 + v) }
+      let c' := { c with st := { c.st with native := { n with bank := bk } } }
+      ({ st with cur := some c' }, "ok " ++ dump c')
+    | _, _, _ => (st, "bad-op")
+  | ["slash", _, _] => ({ st with skip := true }, "ok")      -- oracle-only from here to the next reset
+  | ["allocate"] => ({ st with mask := true }, "ok")
   | ["govburn"] => (st, "ok")
   | _ => (st, "bad-op")
+
+/-- replace the `B:` and `S:` sections of a dump by `~`. -/
+def maskOut (out : String) : String :=
+  joinWith " " ((out.splitOn " ").map (fun f => if f.startsWith "B:" then "B:~" else if f.startsWith "S:" then "S:~" else f))
+
+def step (st : St) (line : String) : St × String :=
+  let world1 := match fields line with
+    | "tx" :: _ => true | "hook" :: _ => true | "burn" :: _ => true | "fund" :: _ => true | "rewardtx" :: _ => true
+    | "govburn" :: _ => true | "slash" :: _ => true | "allocate" :: _ => true
+    | _ => false
+  if st.skip && world1 then (st, "skip")
+  else
+    let r := stepCore st line
+    if st.mask && world1 then (r.1, maskOut r.2) else r
 
 def main : IO Unit := TM.Driver.runStdin step fresh
 
